@@ -172,10 +172,11 @@ def _drv_set_core(d, ttm, k):
     return drv
 
 
-for _d, _k in ((1, 0), (2, 0), (2, 1), (3, 1)):
+# (negative positions: the pinned code rejects them; a version that accepts them python-style has to test the bonds of the core it really replaces)
+for _d, _k in ((1, 0), (2, 0), (2, 1), (3, 1), (3, -1), (3, -2), (2, -2)):
     for _ttm in (False, True):
         scn(name=f"TT.set_core:d{_d},k{_k},{'ttm' if _ttm else 'tt'}", func="_tt_base.TT.set_core", props=("C05",), args=None,
-            driver=_drv_set_core(_d, _ttm, _k), check=_chk, min_returns=1)
+            driver=_drv_set_core(_d, _ttm, _k), check=_chk, min_returns=1 if _k >= 0 else 0)
 
 
 def _drv_set_core_wrong_kind(ttm):
